@@ -825,7 +825,7 @@ func c12Judge(run *c12Run, st *c12Stats) (viol [][2]string, unknown bool) {
 	// the witness class of the known defect "refresh monitor starts its clock when Lock returns
 	// although the lock file carries the time at which the acquisition started": violations
 	// that involve such a hold get their own key.
-	margin := staleLockTimeout - lockerInst.refreshabilityTimeout
+	margin := defaultRefreshInterval * 3 / 2 // documented safety margin; deliberately not derived from lockerInst
 	keys := map[string]int{}
 	// hiddenByLag: a listing made by process b while acquiring (between its acq-call and the
 	// start of hold hb) fell into the listing-lag window right after a refresh Save of process a
